@@ -42,12 +42,16 @@ class SGen(object):
         self.o = o
         self.lines = []
         self.uid = 0
+        self.declared = [set()]     # per function: names declared global / nonlocal inside a compound statement
+        self.nl_ok = False          # the top-level function binds 'nn' (so nested functions may declare it nonlocal)
 
     def emit(self, ind, s):
         self.lines.append('    ' * ind + s)
 
     def name(self):
         r = self.r
+        if self.declared[-1] and r.random() < 0.25:
+            return r.choice(sorted(self.declared[-1]))
         return r.choice(NAMES) if r.random() < 0.8 else r.choice(GLOBALS)
 
     # ---------------------------------------------------------------- expressions
@@ -139,6 +143,8 @@ class SGen(object):
     def target(self):
         r = self.r
         k = r.random()
+        if self.declared[-1] and r.random() < 0.3:
+            return r.choice(sorted(self.declared[-1]))
         if k < 0.7 or not self.o.composite:
             return r.choice(NAMES) if r.random() < 0.9 else r.choice(GLOBALS)
         if k < 0.85:
@@ -238,31 +244,31 @@ class SGen(object):
             return self.simple(ind)
         if k < 0.58:
             self.emit(ind, 'if %s:' % self.expr())
-            self.block(ind + 1, r.randint(1, 2), loop)
+            self.cblock(ind + 1, r.randint(1, 2), loop)
             if r.random() < 0.5:
                 self.emit(ind, 'else:')
-                self.block(ind + 1, r.randint(1, 2), loop)
+                self.cblock(ind + 1, r.randint(1, 2), loop)
         elif k < 0.63:
             self.emit(ind, 'while %s:' % self.expr())
-            self.block(ind + 1, r.randint(1, 2), True)
+            self.cblock(ind + 1, r.randint(1, 2), True)
             if r.random() < 0.2:
                 self.emit(ind, 'else:')
-                self.block(ind + 1, 1, loop)
+                self.cblock(ind + 1, 1, loop)
         elif k < 0.70:
             self.emit(ind, 'for %s in %s:' % (r.choice([self.target(), '%s, %s' % (r.choice(NAMES), r.choice(NAMES))]), self.expr()))
-            self.block(ind + 1, r.randint(1, 2), True)
+            self.cblock(ind + 1, r.randint(1, 2), True)
             if r.random() < 0.2:
                 self.emit(ind, 'else:')
-                self.block(ind + 1, 1, loop)
+                self.cblock(ind + 1, 1, loop)
         elif k < 0.76:
             items = []
             for _ in range(1 if r.random() < 0.8 else 2):
                 items.append('%s as %s' % (self.expr(2), self.target()) if r.random() < 0.6 else self.expr(2))
             self.emit(ind, 'with %s:' % ', '.join(items))
-            self.block(ind + 1, r.randint(1, 2), loop)
+            self.cblock(ind + 1, r.randint(1, 2), loop)
         elif k < 0.83 and o.handlers:
             self.emit(ind, 'try:')
-            self.block(ind + 1, r.randint(1, 2), loop)
+            self.cblock(ind + 1, r.randint(1, 2), loop)
             nh = r.randint(1, 2)
             for i in range(nh):
                 c = r.random()
@@ -272,13 +278,13 @@ class SGen(object):
                     self.emit(ind, 'except %s:' % self.name())
                 else:
                     self.emit(ind, 'except:')
-                self.block(ind + 1, r.randint(1, 2), loop)
+                self.cblock(ind + 1, r.randint(1, 2), loop)
             if r.random() < 0.2:
                 self.emit(ind, 'else:')
-                self.block(ind + 1, 1, loop)
+                self.cblock(ind + 1, 1, loop)
             if r.random() < 0.3:
                 self.emit(ind, 'finally:')
-                self.block(ind + 1, 1, False)
+                self.cblock(ind + 1, 1, False)
         elif k < 0.93 and self.depth < o.max_depth:
             self.fundef(ind)
         elif k < 0.97 and o.classes and self.depth < o.max_depth:
@@ -287,6 +293,29 @@ class SGen(object):
             self.emit(ind, r.choice(['break', 'continue']))
         else:
             self.simple(ind)
+
+    def cblock(self, ind, n, loop=False):
+        """block of a compound statement (if / elif / else / for / while / try / except / finally / with bodies, any
+        depth, any sibling position): may hold a `global mm` / `nonlocal nn` declaration at any position of the block.
+        The declared name is only used textually after the declaration (Python rejects a use before it), in this
+        block, in sibling blocks and after the compound statement."""
+        r = self.r
+        n = max(1, n)
+        pos = r.randint(0, n - 1) if (self.o.declarations and r.random() < 0.2) else -1
+        for i in range(n):
+            if i == pos:
+                cands = []
+                if 'mm' not in self.declared[-1]:
+                    cands.append('global mm')
+                if self.depth_fn > 1 and self.nl_ok and 'nn' not in self.declared[-1]:
+                    cands += ['nonlocal nn'] * 2
+                if cands:
+                    d = r.choice(cands)
+                    self.emit(ind, d)
+                    self.declared[-1].add(d.split()[1])
+                    if r.random() < 0.7:
+                        self.emit(ind, '%s = %s' % (d.split()[1], self.expr(2)))
+            self.stmt(ind, loop)
 
     def decls(self, ind):
         r = self.r
@@ -308,8 +337,10 @@ class SGen(object):
         self.emit(ind, 'def %s(%s)%s:' % (nm, self.params(method), ret))
         self.depth += 1
         self.depth_fn += 1
+        self.declared.append(set())
         self.decls(ind + 1)
         self.block(ind + 1, r.randint(1, 3))
+        self.declared.pop()
         self.depth -= 1
         self.depth_fn -= 1
 
@@ -357,6 +388,9 @@ def gen_static(rnd, opts=None):
     g.depth_fn = 1
     if o.declarations and rnd.random() < 0.3:
         g.emit(1, 'global %s' % ', '.join(rnd.sample(GLOBALS, rnd.randint(1, 2))))
+    if o.declarations and rnd.random() < 0.5:
+        g.emit(1, 'nn = 0')
+        g.nl_ok = True
     g.block(1, rnd.randint(2, 5))
     return '\n'.join(g.lines) + '\n'
 
@@ -375,13 +409,40 @@ def compiles(src):
 # ------------------------------------------------------------------------------------------------
 # runnable programs: progs.Gen plus scope-relevant statements written over the same runtime
 
+GX_NAMES = ['GX', 'GY']
+
+
 class DGen(progs.Gen):
     """Adds to the shared generator: del, nested def reading / rebinding outer variables (nonlocal),
     lambdas, comprehensions, walrus, global declarations, attribute / subscript stores on a local
     object, imports, multi-target with / for."""
 
+    def block(self, ind, defined, depth, in_loop, in_handler_fin, minlen=1):
+        # a `global GX` declaration inside the body of a compound statement (any sibling block, any depth), followed
+        # by stores / reads of GX later in the text
+        r = self.r
+        gx = getattr(self, 'gx', None)
+        if gx is None:
+            gx = self.gx = []
+        if depth > 0 and len(gx) < len(GX_NAMES) and r.random() < 0.22:
+            nm = GX_NAMES[len(gx)]
+            self.emit(ind, 'global %s' % nm)
+            gx.append(nm)
+            if r.random() < 0.7:
+                self.emit(ind, '%s = %s' % (nm, self.texpr(defined)))
+        return progs.Gen.block(self, ind, defined, depth, in_loop, in_handler_fin, minlen)
+
     def stmt(self, ind, defined, depth, in_loop, ihf):
         r = self.r
+        if getattr(self, 'gx', None) and r.random() < 0.12 and self.budget > 0:
+            self.budget -= 1
+            nm = r.choice(self.gx)
+            if r.random() < 0.6:
+                self.emit(ind, '%s = %s' % (nm, self.texpr(defined)))
+            else:
+                self.emit(ind, '%s = %s + 1' % (r.choice(self.vars), nm))
+                return defined, True
+            return defined, True
         if r.random() < 0.28 and self.budget > 0:
             self.budget -= 1
             return self.extra(ind, defined), True
@@ -443,8 +504,28 @@ class DGen(progs.Gen):
             w = self.rd(defined)
             self.emit(ind, 'def %s(p%s, r=%s):' % (nm, ': TY' if r.random() < 0.4 else '', self.rd(defined)))
             if w in self.vars or w in progs.PARAMS:
-                self.emit(ind + 1, 'nonlocal %s' % w)
-                self.emit(ind + 1, '%s = p + r' % w)
+                form = r.randint(0, 3)
+                if form == 0:
+                    self.emit(ind + 1, 'nonlocal %s' % w)
+                    self.emit(ind + 1, '%s = p + r' % w)
+                elif form == 1:             # declaration inside the body of an if (not the last sibling block)
+                    self.emit(ind + 1, 'if p:')
+                    self.emit(ind + 2, 'nonlocal %s' % w)
+                    self.emit(ind + 2, '%s = p + r' % w)
+                    self.emit(ind + 1, 'else:')
+                    self.emit(ind + 2, '%s = r' % w)
+                elif form == 2:             # inside a loop body, used after the loop
+                    self.emit(ind + 1, 'for q in (1, 2):')
+                    self.emit(ind + 2, 'if q:')
+                    self.emit(ind + 3, 'nonlocal %s' % w)
+                    self.emit(ind + 1, '%s = p + r' % w)
+                else:                       # inside try / with bodies
+                    self.emit(ind + 1, 'try:')
+                    self.emit(ind + 2, 'with CM(%d):' % self.key())
+                    self.emit(ind + 3, 'nonlocal %s' % w)
+                    self.emit(ind + 3, '%s = p + r' % w)
+                    self.emit(ind + 1, 'finally:')
+                    self.emit(ind + 2, '%s = %s + 1' % (w, w))
             self.emit(ind + 1, 'return %s' % self.texpr(defined | {'p', 'r'}))
             self.emit(ind, '%s = %s(%s)' % (v, nm, self.texpr(defined)))
             return defined | {v}
@@ -468,6 +549,7 @@ class DGen(progs.Gen):
             if d in self.vars:
                 self.emit(ind, 'del %s' % d)
                 return defined - {d}
+            self.emit(ind, self.texpr(defined))
             return defined
         if k == 10:
             v2 = r.choice(self.vars)
